@@ -149,7 +149,7 @@ def walrus_in_comp_family():
 
 # ---- random typed trees ----------------------------------------------------------------------
 STRS = ['"uber"', '"UBER"', '"Eats"', '""', '" "', '"-"', '"ref"', '"2025-01-31"', '"2024-02-29"', '"20250131"',
-        '"2025-13-01"', '"WHOLEFOODS"', '"€"', '"a.b"']
+        '"2025-13-01"', '"WHOLEFOODS"', '"€"', '"a.b"', '"\xa0uber\u2009"', '"eats\u3000"']
 NUMS = ['0', '1', '2', '3', '12.5', '0.5', '-1', '100', '64', '2.5', '1048576.75', '0.0', 'True']
 STR_ATOMS = ['description', 'field.memo', 'field.code', 'source', 'txn.location', 'txn.description', 'x'] + STRS
 NUM_ATOMS = ['amount', 'month', 'year', 'day', 'weekday', 'txn.amount', 'k'] + NUMS
@@ -287,7 +287,7 @@ def gen_comp(rnd, kind, elt_ty, depth, loopvars):
 
 
 # ---- random environments -----------------------------------------------------------------------
-DESCS = ['UBER EATS 123', 'uber *trip', '', 'Whole-Foods Mkt', 'NETFLIX.COM', 'ref 77 Uber', '  padded  ', 'AB ab', '€5 café'.replace('é', 'e')]
+DESCS = ['UBER EATS 123', 'uber *trip', '', 'UBER\xa0EATS\u2009', '\u3000Whole\u2028Foods', 'Whole-Foods Mkt', 'NETFLIX.COM', 'ref 77 Uber', '  padded  ', 'AB ab', '€5 café'.replace('é', 'e')]
 
 
 def dyadic(rnd):
